@@ -147,6 +147,12 @@ func (m *Machine) inclusion(isList bool) incResult {
 		ps := work[0]
 		work = work[1:]
 		res.States++
+		if res.States > 1500 {
+			// the reference product closes after a few hundred states: a machine that keeps producing new product states emits
+			// events the specification never consumes (e.g. white space that is sometimes taken for the start of a literal)
+			res.Viol = append(res.Viol, incViol{"product:open", fmt.Sprintf("the product with the specification does not close within %d states (last: spec=%s impl=%s, pending events %q): events accumulate that no symbol of the grammar accounts for", res.States, ps.Spec, ps.St, ps.Events), curPos})
+			break
+		}
 		for _, e := range specEdges(isList, ps.Spec) {
 			exits := m.Step(ps.St, ps.InVal, map[string]Tri{"val": ps.ValLen, "key": U}, classByName(e.cls))
 			for _, ex := range exits {
